@@ -616,9 +616,17 @@ ares_status_t ares_sysconfig_parse_resolv_line(const ares_channel_t *channel,
   } else if (ares_streq(option, "sortlist")) {
     /* Ignore all failures except ENOMEM.  If the sysadmin set a bad
      * sortlist, just ignore the sortlist, don't cause an inoperable
-     * channel */
-    status =
-      ares_parse_sortlist(&sysconfig->sortlist, &sysconfig->nsortlist, value);
+     * channel.  Parse into a temporary so a bad or empty line leaves a
+     * sortlist configured by an earlier line in place. */
+    struct apattern *sortlist  = NULL;
+    size_t           nsortlist = 0;
+
+    status = ares_parse_sortlist(&sortlist, &nsortlist, value);
+    if (status == ARES_SUCCESS && sortlist != NULL) {
+      ares_free(sysconfig->sortlist);
+      sysconfig->sortlist  = sortlist;
+      sysconfig->nsortlist = nsortlist;
+    }
     if (status != ARES_ENOMEM) {
       status = ARES_SUCCESS;
     }
